@@ -401,3 +401,10 @@ Proof.
   - apply (clocked_node_own_domain n dom Hwf Hok Hfl).
   - apply (marker_input_own_domain n dom Hwf Hok Hfl).
 Qed.
+
+(* contrapositive of soundness: a design with an unmarked crossing is rejected *)
+Theorem crossing_rejected_thm : forall n dom,
+  wf n = true -> domains_ok n dom = true -> has_crossing n -> flagged n dom <> [].
+Proof.
+  intros n dom Hwf Hok Hc Hfl. destruct (cdc_sound_thm n dom Hwf Hok Hfl) as [_ H]. exact (H Hc).
+Qed.
